@@ -38,14 +38,16 @@ type c04Case struct {
 }
 
 type c04Env struct {
-	t       *tSchema
-	tmux    http.Handler
-	timpl   *tImpl
-	cs      *routeSchema
-	cmux    *larking.Mux
-	cimpl   *recImpl
-	replies map[string]proto.Message
-	names   []string
+	t          *tSchema
+	tmux       http.Handler
+	timpl      *tImpl
+	cs         *routeSchema
+	cmux       *larking.Mux
+	cimpl      *recImpl
+	replies    map[string]proto.Message
+	names      []string
+	cached     map[int]proto.Message // retained HttpBody replies by size
+	cachedWant map[int][]byte
 }
 
 func newC04Env() *c04Env {
@@ -53,7 +55,7 @@ func newC04Env() *c04Env {
 	if err != nil {
 		panic(err)
 	}
-	tm, timpl, err := t.newMux()
+	tm, timpl, err := t.newMux(customOpts()...)
 	if err != nil {
 		panic(err)
 	}
@@ -64,7 +66,7 @@ func newC04Env() *c04Env {
 	cm, cimpl, err := cs.newMux([]boundRule{
 		{M: 0, Rule: dyn.Rule{Kind: "post", Path: "/c04/echo", Body: "*"}},
 		{M: 0, Rule: dyn.Rule{Kind: "get", Path: "/c04/echo"}},
-	}, nil)
+	}, nil, customOpts()...)
 	if err != nil {
 		panic(err)
 	}
@@ -146,7 +148,7 @@ func rangeMatches(r, offer string) bool {
 	return false
 }
 
-var c04Offers = []string{"application/json", "application/protobuf", "application/octet-stream"}
+var c04Offers = []string{"application/json", "application/protobuf", "application/octet-stream", "application/x-rev"} // x-rev: a custom codec registered with CodecOption
 
 // admitted lists the registered response types some Accept range with q>0 admits.
 func admitted(accept string) (offers []string, dubious bool) {
@@ -194,6 +196,9 @@ func (e *c04Env) exec(tc *c04Case) (oracle, note string) {
 		case "application/protobuf", "application/octet-stream":
 			b, _ := proto.Marshal(m)
 			return reqBody{Data: b, CL: -2}
+		case "application/x-rev":
+			b, _ := revCodec{}.Marshal(m)
+			return reqBody{Data: b, CL: -2}
 		default:
 			b, _ := protojson.Marshal(m)
 			return reqBody{Data: b, CL: -2}
@@ -235,6 +240,32 @@ func (e *c04Env) exec(tc *c04Case) (oracle, note string) {
 		wantRawCT = parts[0]
 		n, _ := strconv.Atoi(parts[1])
 		wantRaw = []byte(strings.Repeat(`{"a":1}`, n/7+1))[:n]
+		if wantRawCT == "cached/asset" {
+			// a handler that serves the same retained HttpBody message every time (a static asset
+			// cache): the bytes must still be the pristine ones after all the other traffic this
+			// mux has served in between
+			if e.cached == nil {
+				e.cachedWant = map[int][]byte{}
+				e.cached = map[int]proto.Message{}
+			}
+			if e.cached[n] == nil {
+				hb := dynamicpb.NewMessage(e.t.body)
+				hb.Set(e.t.body.Fields().ByName("content_type"), protoreflect.ValueOfString(wantRawCT))
+				hb.Set(e.t.body.Fields().ByName("data"), protoreflect.ValueOfBytes(append(make([]byte, 0, 96), wantRaw...)))
+				e.cached[n], e.cachedWant[n] = hb, append([]byte(nil), wantRaw...)
+			}
+			e.timpl.reset(hScript{Replies: []proto.Message{e.cached[n]}})
+			up := reqBody{Data: []byte("upload-that-is-not-the-asset-upload-that-is-not-the-asset"), CL: -2}
+			if hdr.Get("Content-Type") == "" {
+				hdr.Set("Content-Type", "text/plain")
+			}
+			res = doHTTP(e.tmux, "POST", "/t/raw/f.bin", "", hdr, up)
+			if e.timpl.log.Calls != 1 && !res.Panicked {
+				return e.notInvoked(tc, res)
+			}
+			wantRaw = e.cachedWant[n]
+			break
+		}
 		hb := dynamicpb.NewMessage(e.t.body)
 		if wantRawCT != "" {
 			hb.Set(e.t.body.Fields().ByName("content_type"), protoreflect.ValueOfString(wantRawCT))
@@ -257,7 +288,7 @@ func (e *c04Env) exec(tc *c04Case) (oracle, note string) {
 	if res.Panicked {
 		return "panic", res.Panic
 	}
-	registeredReq := tc.ReqCT == "" || tc.ReqCT == "application/json" || tc.ReqCT == "application/protobuf" || tc.ReqCT == "application/octet-stream"
+	registeredReq := tc.ReqCT == "" || tc.ReqCT == "application/json" || tc.ReqCT == "application/protobuf" || tc.ReqCT == "application/octet-stream" || tc.ReqCT == "application/x-rev"
 	if res.HTTPCode != 200 {
 		if offers, _ := admitted(tc.Accept); !registeredReq && len(offers) == 0 && res.HTTPCode >= 400 && tc.Method != "raw" {
 			// neither the Accept header nor the request's own type names a registered codec:
@@ -275,6 +306,8 @@ func (e *c04Env) exec(tc *c04Case) (oracle, note string) {
 			return "content-encoding-untruthful", "Content-Encoding: gzip but the body is not gzip: " + err.Error()
 		}
 		body = b
+	case "x-rot": // the custom compressor registered with CompressorOption
+		body = rotBytes(body)
 	default:
 		return "content-encoding-untruthful", fmt.Sprintf("Content-Encoding %q", ce)
 	}
@@ -318,6 +351,8 @@ func (e *c04Env) exec(tc *c04Case) (oracle, note string) {
 		err = protojson.Unmarshal(body, got)
 	case "application/protobuf", "application/octet-stream":
 		err = proto.Unmarshal(body, got)
+	case "application/x-rev":
+		err = revCodec{}.Unmarshal(body, got)
 	default:
 		return "content-type-unknown", fmt.Sprintf("response Content-Type %q names no codec", ct)
 	}
@@ -330,10 +365,46 @@ func (e *c04Env) exec(tc *c04Case) (oracle, note string) {
 	return "", ""
 }
 
+// c04CachedAsset: history-dependent part. One mux; a handler that serves the same retained
+// HttpBody message every time (a static-asset cache), interleaved with other traffic through
+// the same mux (JSON echo, protobuf echo, an upload, a response_body call): every serving of
+// the asset must still deliver the pristine bytes.
+func c04CachedAsset(c *Ctx) {
+	r := c.Run
+	e := newC04Env()
+	others := []c04Case{
+		{Method: "echo", Reply: "all-kinds", ReqCT: "application/json", Verb: "POST"},
+		{Method: "echo", Reply: "all-kinds", ReqCT: "application/protobuf", Accept: "application/protobuf", Verb: "POST"},
+		{Method: "raw", Reply: "image/jpeg|70"},
+		{Method: "sel", Reply: "full", ReqCT: "application/json"},
+		{Method: "echo", Reply: "empty", ReqCT: "application/json", AcceptEnc: "gzip", Verb: "POST"},
+	}
+	for round := 0; round < 8; round++ {
+		for _, n := range []int{5, 40, 90} {
+			tc := c04Case{Method: "raw", Reply: fmt.Sprintf("cached/asset|%d", n), Accept: []string{"", "*/*", "application/json"}[round%3]}
+			oracle, note := e.exec(&tc)
+			r.Eval(1)
+			if oracle != "" {
+				r.Outcome("FAIL:" + oracle)
+				r.Violation(report.Violation{Oracle: oracle, Key: fmt.Sprintf("%s cached-asset size=%d serving=%d", oracle, n, round+1), Case: map[string]any{"kind": "cached-asset", "size": n, "serving": round + 1, "between": "json echo, protobuf echo, upload, response_body, gzip echo"}, Note: note})
+				return
+			}
+			r.Outcome("raw:cached-asset-intact")
+			o := others[(round*3+n)%len(others)]
+			if oracle, note := e.exec(&o); oracle != "" {
+				r.Violation(report.Violation{Oracle: oracle, Key: fmt.Sprintf("%s between cached-asset servings method=%s reply=%s", oracle, o.Method, o.Reply), Case: o, Note: note})
+				return
+			}
+			r.Eval(1)
+		}
+	}
+	r.Distinct("cached-asset")
+}
+
 func (e *c04Env) notInvoked(tc *c04Case, res *callResult) (string, string) {
 	// An unregistered request content type with a body is legitimately refused.
 	switch tc.ReqCT {
-	case "", "application/json", "application/protobuf", "application/octet-stream":
+	case "", "application/json", "application/protobuf", "application/octet-stream", "application/x-rev":
 		return "handler-not-invoked", fmt.Sprintf("HTTP %d %s", res.HTTPCode, truncS(string(res.Body), 120))
 	}
 	if res.HTTPCode >= 400 {
@@ -343,7 +414,7 @@ func (e *c04Env) notInvoked(tc *c04Case, res *callResult) (string, string) {
 }
 
 func c04Accepts() []string {
-	types := []string{"application/json", "application/protobuf", "application/octet-stream", "application/*", "*/*", "text/plain", "junk", "google.api.HttpBody"}
+	types := []string{"application/json", "application/protobuf", "application/octet-stream", "application/x-rev", "application/*", "*/*", "text/plain", "junk", "google.api.HttpBody"}
 	qs := []string{"", ";q=0", ";q=0.5", ";q=1"}
 	out := []string{""}
 	var singles []string
@@ -368,10 +439,10 @@ func c04Accepts() []string {
 func c04Cases(e *c04Env, thorough bool) []c04Case {
 	var out []c04Case
 	accepts := c04Accepts()
-	encs := []string{"", "gzip", "identity", "*", "gzip;q=0", "junk", "gzip, identity;q=0.5", "application/json"}
-	reqCTs := []string{"", "application/json", "application/protobuf", "application/octet-stream", "text/unregistered"}
+	encs := []string{"", "gzip", "identity", "*", "gzip;q=0", "junk", "gzip, identity;q=0.5", "application/json", "x-rot"}
+	reqCTs := []string{"", "application/json", "application/protobuf", "application/octet-stream", "text/unregistered", "application/x-rev"}
 	// every reply × request type × a few Accept values × every Accept-Encoding
-	fewAccept := []string{"", "application/json", "application/protobuf", "application/octet-stream", "*/*", "text/plain"}
+	fewAccept := []string{"", "application/json", "application/protobuf", "application/octet-stream", "*/*", "text/plain", "application/x-rev"}
 	for _, name := range e.names {
 		for _, rct := range reqCTs {
 			for _, a := range fewAccept {
@@ -461,7 +532,7 @@ func c04Cases(e *c04Env, thorough bool) []c04Case {
 
 func runC04(c *Ctx) {
 	r := c.Run
-	r.Rule("reply{empty, each field kind with a boundary value, maps/struct/any/repeated messages, all kinds at once, 64KiB} × request Content-Type{none,json,protobuf,octet-stream,unregistered} × Accept{every list of <= 2 ranges from {json,protobuf,octet-stream,application/*,*/*,text/plain,junk,google.api.HttpBody} × q{none,0,0.5,1}, plus malformed} × Accept-Encoding{none,gzip,identity,*,gzip;q=0,junk,list,a content type}; response_body selector; handlers that call grpc.SendHeader before replying; google.api.HttpBody replies (4 content types × 4 sizes incl. JSON-looking bytes); distinct = (method, reply, request type, Accept class, Accept-Encoding); thorough adds the full cross reply × request type × every Accept list × Accept-Encoding{none,gzip,gzip;q=0,*} × SendHeader{no,yes}, and every Accept list on HttpBody and response_body replies")
+	r.Rule("reply{empty, each field kind with a boundary value, maps/struct/any/repeated messages, all kinds at once, 64KiB} × request Content-Type{none,json,protobuf,octet-stream,unregistered, a custom codec registered with CodecOption} × Accept{every list of <= 2 ranges from {json,protobuf,octet-stream,the custom codec,application/*,*/*,text/plain,junk,google.api.HttpBody} × q{none,0,0.5,1}, plus malformed} × Accept-Encoding{none,gzip,identity,*,gzip;q=0,junk,list,a content type}; response_body selector; handlers that call grpc.SendHeader before replying; google.api.HttpBody replies (4 content types × 4 sizes incl. JSON-looking bytes); a retained HttpBody reply (cached asset, 3 sizes) served 8 times on one mux with other requests in between; distinct = (method, reply, request type, Accept class, Accept-Encoding); thorough adds the full cross reply × request type × every Accept list × Accept-Encoding{none,gzip,gzip;q=0,*} × SendHeader{no,yes}, and every Accept list on HttpBody and response_body replies")
 	r.Assume("which admitted type is chosen and q=0 exclusions of a more specific range are not demanded", "a request with an unregistered content type and a body may be refused")
 	e0 := newC04Env()
 	cases := c04Cases(e0, c.Thorough())
@@ -488,9 +559,20 @@ func runC04(c *Ctx) {
 			r.Sample(*tc)
 		}
 	})
+	c04CachedAsset(c)
 }
 
 func replayC04(c *Ctx, v report.Violation) {
+	if strings.Contains(v.Key, "cached-asset") {
+		sub := *c
+		sub.Run = report.NewRun("C04", "quick", 0, "exploration")
+		c04CachedAsset(&sub)
+		fmt.Printf("replay: cached-asset history re-run -> %d violations\n", sub.Run.NumViolations())
+		if sub.Run.NumViolations() > 0 {
+			c.Run.Violation(report.Violation{Oracle: v.Oracle, Key: v.Key, Case: v.Case, Note: "still violated"})
+		}
+		return
+	}
 	var tc c04Case
 	if !remarshal(v.Case, &tc) {
 		fmt.Println("replay: cannot decode case")
